@@ -1,5 +1,7 @@
 import HappyModel.C04.Control
 import HappyProofs.C01.Props
+import HappyProofs.C04.Breakpoint
+import HappyProofs.C04.Session
 /-!
 # C04 — property theorems (control surface)
 
@@ -13,7 +15,7 @@ The instrumented loop `ctlLoop` is written out separately from the plain loop `r
 code has two loops); the theorems relate the two.
 -/
 namespace HappyModel.C04
-open HappyModel.C01
+open HappyModel.C01 HappyModel.C03
 set_option linter.unusedVariables false
 set_option linter.unusedSimpArgs false
 
@@ -120,20 +122,25 @@ theorem ctlLoop_is_run_prefix (m : Machine σ) (endT : Option Nat) (fuel : Nat) 
         simp [this]
 
 /-- **control invariance**: whatever sequence of pause / resume / step(n) / breakpoint / hook
-    commands drives the run, the engine state is always a state of the uninterrupted run -/
-theorem control_prefix (m : Machine σ) (endT : Option Nat) (fuel : Nat) (cmds : List Cmd) (z : Sess σ)
+    commands drives the run, the engine state is always a state of the uninterrupted run
+    (`reset()` starts another run and `schedule()` from outside changes the model being run: they are
+    the two commands this statement does not cover — see `reset_state_is_init`, `session_inv`) -/
+theorem control_prefix (m : Machine σ) (x : Ext σ) (endT : Option Nat) (fuel : Nat) (cmds : List Cmd)
+    (hc : ∀ c ∈ cmds, c.isControl = true) (z : Sess σ)
     (s0 : St σ) (k0 : Nat) (hz : z.s = run m endT k0 s0) :
-    ∃ k, (cmds.foldl (Sess.apply m endT fuel) z).s = run m endT k s0 := by
+    ∃ k, (cmds.foldl (Sess.apply m x endT fuel) z).s = run m endT k s0 := by
   induction cmds generalizing z k0 with
   | nil => exact ⟨k0, hz⟩
   | cons cmd rest ih =>
     simp only [List.foldl_cons]
-    have key : ∃ k1, (Sess.apply m endT fuel z cmd).s = run m endT k1 s0 := by
+    have key : ∃ k1, (Sess.apply m x endT fuel z cmd).s = run m endT k1 s0 := by
       cases cmd with
       | pause => exact ⟨k0, hz⟩
       | bp b => exact ⟨k0, hz⟩
       | clear => exact ⟨k0, hz⟩
       | pauseAt k => exact ⟨k0, hz⟩
+      | reset => have := hc .reset (by simp); simp [Cmd.isControl] at this
+      | sched sp rel => have := hc (.sched sp rel) (by simp); simp [Cmd.isControl] at this
       | go =>
         simp only [Sess.apply]
         split
@@ -147,7 +154,7 @@ theorem control_prefix (m : Machine σ) (endT : Option Nat) (fuel : Nat) (cmds :
         · obtain ⟨k, hk, _⟩ := ctlLoop_is_run_prefix m endT fuel z.s (z.c.step n)
           exact ⟨k0 + k, by simp only []; rw [hk, hz, run_add]⟩
     obtain ⟨k1, h1⟩ := key
-    exact ih _ k1 h1
+    exact ih (fun c hcm => hc c (List.mem_cons_of_mem _ hcm)) _ k1 h1
 
 /-- … and once a controlled run reports completion it *is* the uninterrupted run: same delivery log,
     same entity state, same clock, for every larger number of iterations of the plain loop -/
@@ -226,11 +233,233 @@ theorem step_exact (m : Machine σ) (endT : Option Nat) (fuel : Nat) (s : St σ)
 example :
     let mc : Machine Unit := { handle := fun _ _ _ => { ent := () } }
     let s0 : St Unit := init () 0 [⟨1, 0, 0, false, 0, 0⟩, ⟨2, 0, 1, false, 0, 0⟩, ⟨2, 0, 2, false, 0, 0⟩]
-    let z1 := (Sess.apply mc (some 10) 100 { s := s0 } .pause)
-    let z2 := Sess.apply mc (some 10) 100 z1 .go
-    let z3 := Sess.apply mc (some 10) 100 z2 (.step 2)
-    let z4 := Sess.apply mc (some 10) 100 z3 .go
+    let z1 := (Sess.apply mc {} (some 10) 100 { s := s0 } .pause)
+    let z2 := Sess.apply mc {} (some 10) 100 z1 .go
+    let z3 := Sess.apply mc {} (some 10) 100 z2 (.step 2)
+    let z4 := Sess.apply mc {} (some 10) 100 z3 .go
     z3.s.processed = 2 ∧ z3.paused = true ∧ z4.running = false ∧
       z4.s.log.map (·.id) = (run mc (some 10) 100 s0).log.map (·.id) := by decide
+
+
+/-! ### breakpoints -/
+
+/-- **"a breakpoint pauses right after the first delivery that satisfies it"**: in any call of
+    run()/resume()/step(n), a delivery on which some registered breakpoint fires is the *last*
+    delivery of that call, no earlier delivery of the call fired any registered breakpoint, and the
+    call comes back paused in the engine state right after that delivery -/
+theorem breakpoint_first (m : Machine σ) (endT : Option Nat) (fuel : Nat) (s : St σ) (c : Ctl)
+    (pre : List (St σ × Ev)) (p : St σ × Ev) (post : List (St σ × Ev))
+    (hD : ctlDelivs m endT fuel s c = pre ++ p :: post) (hf : fires c.bps p) :
+    post = [] ∧ (∀ q ∈ pre, ¬ fires c.bps q) ∧
+      (ctlLoop m endT fuel s c).2.2 = .paused ∧ (ctlLoop m endT fuel s c).1 = p.1 := by
+  have F := callFacts m endT fuel s c
+  obtain ⟨h1, h2, h3, _⟩ := F.first pre p post hD hf
+  refine ⟨h1, ?_, h2, h3⟩
+  intro q hq hfq
+  obtain ⟨a, b, rfl⟩ := List.append_of_mem hq
+  have hD' : ctlDelivs m endT fuel s c = a ++ q :: (b ++ p :: post) := by
+    rw [hD]; simp
+  have := (F.first a q _ hD' hfq).1
+  simp at this
+
+/-- conversely, a call comes back paused only for a cause: a pause request or an exhausted step
+    budget (`shouldPause`), or a registered breakpoint that fires on the last delivery — which then is
+    the first delivery of the call that fires one -/
+theorem breakpoint_pause_cause (m : Machine σ) (endT : Option Nat) (fuel : Nat) (s : St σ) (c : Ctl)
+    (hp : (ctlLoop m endT fuel s c).2.2 = .paused) :
+    shouldPause (ctlLoop m endT fuel s c).2.1 = true ∨
+    ∃ pre p, ctlDelivs m endT fuel s c = pre ++ [p] ∧ (ctlLoop m endT fuel s c).1 = p.1 ∧
+      fires c.bps p ∧ ∀ q ∈ pre, ¬ fires c.bps q := by
+  have F := callFacts m endT fuel s c
+  by_cases hq : ∀ p ∈ ctlDelivs m endT fuel s c, ¬ fires c.bps p
+  · exact Or.inl ((F.quiet hq).2 hp)
+  · right
+    have : ∃ p, p ∈ ctlDelivs m endT fuel s c ∧ fires c.bps p := by
+      apply Classical.byContradiction
+      intro hne
+      exact hq (fun p hp' hf => hne ⟨p, hp', hf⟩)
+    obtain ⟨p, hpm, hf⟩ := this
+    obtain ⟨pre, post, hD⟩ := List.append_of_mem hpm
+    obtain ⟨h1, h2, _, h4⟩ := breakpoint_first m endT fuel s c pre p post hD hf
+    subst h1
+    exact ⟨pre, p, hD, h4, hf, h2⟩
+
+/-- a one-shot breakpoint disappears only by firing (and a persistent one never): a breakpoint that
+    was registered before a call and is not after it is one-shot and fired on the last delivery of
+    that call -/
+theorem oneshot_removed_only_if_fired (m : Machine σ) (endT : Option Nat) (fuel : Nat) (s : St σ)
+    (c : Ctl) (b : Bp) (hb : b ∈ c.bps) (hgone : b ∉ (ctlLoop m endT fuel s c).2.1.bps) :
+    b.oneShot = true ∧ ∃ pre p, ctlDelivs m endT fuel s c = pre ++ [p] ∧ b.hit p.1 p.2 = true := by
+  have F := callFacts m endT fuel s c
+  by_cases hq : ∀ p ∈ ctlDelivs m endT fuel s c, ¬ fires c.bps p
+  · rw [(F.quiet hq).1] at hgone; exact absurd hb hgone
+  · have : ∃ p, p ∈ ctlDelivs m endT fuel s c ∧ fires c.bps p := by
+      apply Classical.byContradiction
+      intro hne
+      exact hq (fun p hp' hf => hne ⟨p, hp', hf⟩)
+    obtain ⟨p, hpm, hf⟩ := this
+    obtain ⟨pre, post, hD⟩ := List.append_of_mem hpm
+    obtain ⟨h1, _, _, h4⟩ := F.first pre p post hD hf
+    subst h1
+    rw [h4] at hgone
+    have : (b.hit p.1 p.2 && b.oneShot) = true := by
+      by_cases hx : (b.hit p.1 p.2 && b.oneShot) = true
+      · exact hx
+      · have hx' : (b.hit p.1 p.2 && b.oneShot) = false := by simpa using hx
+        exact absurd (List.mem_filter.mpr ⟨hb, by simp [hx']⟩) hgone
+    simp at this
+    exact ⟨this.2, pre, p, hD, this.1⟩
+
+/-- with nothing armed — no pause request, no step budget, no breakpoint, no pausing hook — a call
+    never comes back paused (in particular the run() after a reset(), see `reset_clears_control`) -/
+theorem no_cause_no_pause (m : Machine σ) (endT : Option Nat) (fuel : Nat) (s : St σ) :
+    (ctlLoop m endT fuel s {}).2.2 ≠ .paused := by
+  induction fuel generalizing s with
+  | zero => simp [ctlLoop]
+  | succ fuel ih =>
+    simp only [ctlLoop]
+    by_cases h1 : loopCond endT s = true
+    · simp only [h1, Bool.not_true, Bool.false_eq_true, if_false]
+      have hp : shouldPause ({} : Ctl) = false := by simp [shouldPause]
+      simp only [hp, Bool.false_eq_true, if_false]
+      by_cases h2 : (endT.isNone && s.primary == 0) = true
+      · simp [h2]
+      · have h2' : (endT.isNone && s.primary == 0) = false := by simpa using h2
+        simp only [h2', Bool.false_eq_true, if_false]
+        cases hh : s.heap with
+        | nil => simp
+        | cons x xs =>
+          simp only []
+          split
+          · exact ih _
+          · simp only [List.filter_nil, List.isEmpty_nil, if_true, Option.map_none,
+              List.contains_nil, Bool.or_self]
+            exact ih _
+    · have h1' : loopCond endT s = false := by simpa using h1
+      simp [h1']
+
+/-- non-vacuity: two breakpoints, the earlier-registered persistent one (type 1) fires at the second
+    delivery while the later one-shot (count ≥ 3) is not yet satisfied: the one-shot stays registered
+    and stops the resumed run after delivery 3 -/
+example :
+    let mc : Machine Unit := { handle := fun _ _ _ => { ent := () } }
+    let s0 : St Unit := init () 0 [⟨1, 0, 0, false, 0, 0⟩, ⟨2, 0, 1, false, 0, 0⟩, ⟨3, 0, 2, false, 0, 0⟩, ⟨4, 0, 2, false, 0, 0⟩]
+    let z0 : Sess Unit := { s := s0 }
+    let z1 := Sess.apply mc {} (some 10) 100 z0 (.bp (.kind 1 false))
+    let z2 := Sess.apply mc {} (some 10) 100 z1 (.bp (.count 3 true))
+    let z3 := Sess.apply mc {} (some 10) 100 z2 .go
+    let z4 := Sess.apply mc {} (some 10) 100 z3 .go
+    let z5 := Sess.apply mc {} (some 10) 100 z4 .go
+    z3.paused = true ∧ z3.s.processed = 2 ∧ z3.c.bps.length = 2 ∧
+    z4.paused = true ∧ z4.s.processed = 3 ∧ z4.c.bps.length = 1 ∧
+    z5.running = false ∧ z5.s.processed = 4 := by decide
+
+/-! ### reset() and schedule() from outside -/
+
+/-- `reset()` leaves nothing of the previous round armed except what the user registered:
+    pause request and step budget are cleared, breakpoints and hooks are kept -/
+theorem reset_clears_control (m : Machine σ) (x : Ext σ) (endT : Option Nat) (fuel : Nat) (z : Sess σ) :
+    let z' := Sess.apply m x endT fuel z .reset
+    z'.c.pauseReq = false ∧ z'.c.steps = none ∧ z'.c.bps = z.c.bps ∧ z'.c.pauseAt = z.c.pauseAt ∧
+    z'.started = false ∧ z'.paused = false ∧ z'.running = false ∧ z'.pre = z.pre := by
+  simp [Sess.apply, Ctl.reset]
+
+/-- **the state after `reset()` is the initial state of the same pre-run schedule**, creation indices
+    shifted by a constant (the events are re-created, in the original order); clock and counters
+    are back at zero; entity state is whatever it was -/
+theorem reset_state_is_init (m : Machine σ) (x : Ext σ) (endT : Option Nat) (fuel : Nat) (z : Sess σ) :
+    (Sess.apply m x endT fuel z .reset).s =
+      renSt (· + z.s.nextId) id (z.s.nextId + z.pre.length) (init (x.reseat z.s.ent z.pre.length) 0 z.pre) := by
+  simp only [Sess.apply]
+  exact reset_is_init _ _ _
+
+/-- **reset() + run() repeats the original run** for models that do not compute with creation
+    indices (C03 `IdOblivious`) and whose entity state is back at its initial value `ent0`
+    ("stateless"): same observable delivery sequence (time, target, type, payload, tag), same clock,
+    same number of processed events, after any number of loop iterations -/
+theorem reset_replays (mc : Machine σ) (ho : IdOblivious mc) (base : Nat) (ent0 : σ) (pre : List Spec)
+    (endT : Option Nat) (n : Nat) :
+    (run mc endT n (resetSt base ent0 pre)).log.map obs = (run mc endT n (init ent0 0 pre)).log.map obs ∧
+    (run mc endT n (resetSt base ent0 pre)).now = (run mc endT n (init ent0 0 pre)).now ∧
+    (run mc endT n (resetSt base ent0 pre)).processed = (run mc endT n (init ent0 0 pre)).processed := by
+  rw [reset_is_init]
+  have h := run_index_shift mc (· + base) id (by intro a b hab; show a + base < b + base; omega)
+    (ho.equivariant _) endT n (init ent0 0 pre) (base + pre.length)
+    (by intro j; show (init ent0 0 pre).nextId + j + base = base + pre.length + j; simp [init]; omega)
+  refine ⟨?_, h.2.1, h.2.2.1⟩
+  rw [h.1]
+  simp [List.map_map, Function.comp_def, obs_ren]
+
+/-- non-vacuity of `reset_replays`: a machine whose handler emits a follow-up event without looking
+    at creation indices is `IdOblivious` -/
+example : IdOblivious ({ handle := fun (n : Nat) now e =>
+    { ent := n + 1, specs := if e.kind = 0 then [⟨now + 1, e.target, 1, false, 0, 0⟩] else [] } } : Machine Nat) :=
+  ⟨fun _ _ _ _ => rfl, fun _ _ _ => rfl, fun _ _ _ => rfl⟩
+
+/-- the engine invariant of C01 (fresh creation indices, delivery log sorted by (time, index), log
+    below heap, …) holds in every state a session can reach — whatever is scheduled from outside and
+    however often the run is reset -/
+theorem session_inv (m : Machine σ) (x : Ext σ) (endT : Option Nat) (fuel : Nat) (cmds : List Cmd)
+    (z : Sess σ) (inv : Inv z.s) : Inv (cmds.foldl (Sess.apply m x endT fuel) z).s := by
+  induction cmds generalizing z with
+  | nil => exact inv
+  | cons cmd rest ih =>
+    simp only [List.foldl_cons]
+    apply ih
+    have loop : ∀ c, Inv (ctlLoop m endT fuel z.s c).1 := by
+      intro c
+      obtain ⟨k, hk, _⟩ := ctlLoop_is_run_prefix m endT fuel z.s c
+      rw [hk]; exact run_inv m endT k z.s inv
+    cases cmd with
+    | pause => exact inv
+    | bp b => exact inv
+    | clear => exact inv
+    | pauseAt k => exact inv
+    | reset => simp only [Sess.apply]; exact reset_inv _ _ _
+    | sched sp rel =>
+      simp only [Sess.apply]
+      split
+      · exact inv
+      · exact inject_inv _ _ _ inv
+    | go =>
+      simp only [Sess.apply]
+      split
+      · exact inv
+      · exact loop _
+    | step n =>
+      simp only [Sess.apply]
+      split
+      · exact inv
+      · exact loop _
+
+/-- **time order with FIFO ties in every session**: deliveries of the current round are strictly
+    increasing in (time, creation index), also across pauses, injections from outside (which always
+    get the youngest index, `injected_is_youngest`) and resets -/
+theorem session_fifo (m : Machine σ) (x : Ext σ) (endT : Option Nat) (fuel : Nat) (cmds : List Cmd)
+    (ent : σ) (pre : List Spec) :
+    (cmds.foldl (Sess.apply m x endT fuel) { s := init ent 0 pre, pre := pre }).s.log.Pairwise
+      (fun a b => a.time < b.time ∨ (a.time = b.time ∧ a.id < b.id)) := by
+  have inv := session_inv m x endT fuel cmds { s := init ent 0 pre, pre := pre } (init_inv ent 0 pre)
+  refine (logSorted_pairwise _ inv.sorted).imp ?_
+  intro a b h
+  unfold keyLt at h
+  simp at h
+  omega
+
+/-- non-vacuity: pause after 2 of 3 deliveries, schedule an event for the timestamp of the pending
+    one from outside: it is delivered after it; then reset() and run(): the original three deliveries -/
+example :
+    let mc : Machine Unit := { handle := fun _ _ _ => { ent := () } }
+    let pre : List Spec := [⟨1, 0, 0, false, 0, 1⟩, ⟨2, 0, 1, false, 0, 2⟩, ⟨2, 0, 2, false, 0, 3⟩]
+    let z0 : Sess Unit := { s := init () 0 pre, pre := pre }
+    let z1 := Sess.apply mc {} (some 10) 100 z0 .pause
+    let z2 := Sess.apply mc {} (some 10) 100 z1 .go
+    let z3 := Sess.apply mc {} (some 10) 100 z2 (.step 2)
+    let z4 := Sess.apply mc {} (some 10) 100 z3 (.sched ⟨0, 0, 7, false, 0, 9⟩ true)
+    let z5 := Sess.apply mc {} (some 10) 100 z4 .go
+    let z6 := Sess.apply mc {} (some 10) 100 z5 .reset
+    let z7 := Sess.apply mc {} (some 10) 100 z6 .go
+    z5.s.log.map (·.tag) = [1, 2, 3, 9] ∧ z6.s.now = 0 ∧ z6.s.heap.map (·.id) = [4, 5, 6] ∧
+      z7.running = false ∧ z7.s.log.map (·.tag) = [1, 2, 3] := by decide
 
 end HappyModel.C04
